@@ -234,9 +234,16 @@ fn gen_case(rng: &mut Rng) -> LocCase {
     }
     let mut cfg = gen_cfg(rng);
     cfg.whole = false;
-    let size = rng.weighted(&[3, 5, 2]);
+    // now and then a document of thousands of items: the corrupted token then sits at a large
+    // offset, beyond several realigns, whatever the chunk size
+    let size = if !cfg!(miri) && rng.chance(1, 150) {
+        3
+    } else {
+        rng.weighted(&[3, 5, 2])
+    };
     let d: Doc = gen::valid(rng, &cfg, size);
     let mut bytes = d.bytes.clone();
+    let mut focus: Option<(usize, usize)> = None;
     let mut expect = None;
     let mut corruption = String::new();
     let mut binary = d.binary;
@@ -269,6 +276,7 @@ fn gen_case(rng: &mut Rng) -> LocCase {
                     expect = Some((line, col + lo, col + hi));
                 }
                 corruption = format!("{name}: {:?} -> {:?} at offset {}", show_bytes(old), show_bytes(&new), tok.start);
+                focus = Some((tok.start, tok.start + new.len()));
                 break;
             }
         }
@@ -280,7 +288,11 @@ fn gen_case(rng: &mut Rng) -> LocCase {
     } else {
         vec![]
     };
-    let cuts: Vec<usize> = d.cuts().iter().map(|c| c + junk.len()).collect();
+    let cuts: Vec<usize> = match focus {
+        // half of the runs: the read boundaries are aimed at the corrupted token only
+        Some((a, e)) if rng.chance(1, 2) => vec![a + junk.len(), e + junk.len()],
+        _ => d.cuts().iter().map(|c| c + junk.len()).collect(),
+    };
     let interrupts = rng.weighted(&[6, 2, 1]) as u8;
     let src = gen_plan(rng, bytes.len() + junk.len(), &cuts, interrupts);
     let _ = binary;
